@@ -81,5 +81,11 @@ func VerifC14Takeover() {
 			vAssert("v3-takeover-sends-at-most-a-disconnect", len(wt.Pkts) == 0 || (len(wt.Pkts) == 1 && wt.Pkts[0].Type == packets.Disconnect))
 		}
 	}
+	if vParam("WF", 0) == 1 {
+		vAssertWellFormed(vParseWire(vConnWritten(c2), nv), nv, 0)
+		if existed {
+			vAssertWellFormed(vParseWire(vConnWritten(c1), ov), ov, 0)
+		}
+	}
 	vReach("end")
 }
